@@ -1,7 +1,7 @@
 (* C20 — primitive value conversions are correct on their entire domains.
    Statements only; proofs are in BMC.PrimProofs / BMC.StringProofs. *)
 From BMC Require Import Base Prim PrimProofs StringProofs.
-From BMCProps Require Import Tie.
+From BMCProps Require Import TiePrim.
 
 (* BCD byte: tens in the high nibble, units in the low nibble *)
 Theorem C20_bcd : forall b, b < 256 -> Impl.bcd_decode b = 10 * (b / 16) + b mod 16.
